@@ -39,8 +39,16 @@ impl Scenario for ConnScenario {
 			connect_points: true,
 			ping_ms: if self.name.starts_with("ws-inactive") { Some(2) } else { None },
 			per_conn_http_mw: self.name.contains("http-middleware"),
+			tcp: self.name.starts_with("tcp:"),
+			restrict_last: if self.name.contains("http-only-last") { Some(false) } else if self.name.contains("ws-only-last") { Some(true) } else { None },
 			..Default::default()
 		})
+	}
+	fn needs_io(&self) -> bool {
+		self.name.starts_with("tcp:")
+	}
+	fn tolerate_divergence(&self) -> bool {
+		self.name.starts_with("tcp:")
 	}
 	fn judge(&self, _st: SrvState, trace: &[String], panics: &[String], status: Status) -> Verdict {
 		let mut v = monitor(trace, &self.conns, self.limit as i64);
@@ -120,7 +128,9 @@ pub fn monitor(trace: &[String], conns: &[Conn], limit: i64) -> Vec<(String, Str
 						rx,
 						refused,
 						certain: if is_slow { start.map(|s| (s, finish.or(dropped).unwrap_or(end))) } else { None },
-						possible_to: rx.or(dropped.map(|d| d + 8)).unwrap_or(end),
+						// a request whose peer dropped the socket stops counting once the server had the chance to notice: the
+						// next scheduling decision after the drop is taken at quiescence, i.e. after the server processed the EOF
+						possible_to: rx.or(dropped.map(|d| trace.iter().enumerate().skip(d + 1).find(|(_, x)| x.starts_with('>')).map_or(end, |(k, _)| k))).unwrap_or(end),
 						tag: tagn,
 					});
 					if refused && start.is_some() {
@@ -252,6 +262,13 @@ pub fn scenarios(thorough: bool) -> Vec<ConnScenario> {
 	add("ws-with-subscription-reset", 1, vec![ws(vec![PeerAct::Subscribe(0), PeerAct::Drop]), ws(vec![PeerAct::Call, PeerAct::CloseFrame]), http(vec![HttpAct::Call])], false, mask_harness_only);
 	add("ws-protocol-violation", 1, vec![Conn::WsRaw(vec![RawWsAct::Call, RawWsAct::ReservedOpcode]), ws(vec![PeerAct::Call, PeerAct::CloseFrame]), http(vec![HttpAct::Call])], false, mask_harness_only);
 	add("ws-protocol-violation-idle", 1, vec![Conn::WsRaw(vec![RawWsAct::ReservedOpcode]), Conn::WsRaw(vec![RawWsAct::Call])], false, mask_harness_only);
+	// the configuration assembled with max_connections first and the transport restriction as the last builder call
+	add("http-only-last", 1, vec![http(vec![HttpAct::SlowCall, HttpAct::Call]), http(vec![HttpAct::Call]), http(vec![HttpAct::Call])], false, mask_harness_only);
+	add("ws-only-last", 1, vec![ws(vec![PeerAct::SlowCall]), ws(vec![PeerAct::Call]), ws(vec![PeerAct::Call, PeerAct::CloseFrame])], false, mask_harness_only);
+	// Server::start over loopback TCP (HTTP only: hyper's own connection handling is in the loop): a request aborted
+	// mid-call gives its slot back
+	add("tcp:http-aborted-mid-call", 1, vec![http(vec![HttpAct::CallThenDrop]), http(vec![HttpAct::Call]), http(vec![HttpAct::Call])], false, mask_harness_only);
+	add("tcp:http-only", 1, vec![http(vec![HttpAct::SlowCall, HttpAct::Call]), http(vec![HttpAct::Call])], false, mask_harness_only);
 	// per-connection HTTP middleware set on a clone of the shared builder: the limit still spans all connections
 	add("http-middleware-per-connection:ws", 1, vec![ws(vec![PeerAct::SlowCall]), ws(vec![PeerAct::Call]), http(vec![HttpAct::Call])], false, mask_harness_only);
 	add("http-middleware-per-connection:http", 1, vec![http(vec![HttpAct::SlowCall, HttpAct::Call]), http(vec![HttpAct::Call]), ws(vec![PeerAct::Call, PeerAct::CloseFrame])], false, mask_harness_only);
